@@ -1,39 +1,4 @@
-(* Line-protocol driver around the extracted model (coq/extract/model.ml).
-   Conversions between decimal text and the extracted positive/N/Z go through zarith;
-   nothing here computes a result of the model, it only parses and prints. *)
-module B = Z  (* zarith, before Model's own module Z shadows it *)
-open Model
-
-let rec pos_of_z (z : B.t) : positive =
-  if B.equal z B.one then XH
-  else if B.testbit z 0 then XI (pos_of_z (B.shift_right z 1))
-  else XO (pos_of_z (B.shift_right z 1))
-let n_of_z (z : B.t) : n = if B.sign z = 0 then N0 else Npos (pos_of_z z)
-let zz_of_z (z : B.t) : Model.z =
-  if B.sign z = 0 then Z0 else if B.sign z > 0 then Zpos (pos_of_z z) else Zneg (pos_of_z (B.neg z))
-let rec z_of_pos (p : positive) : B.t =
-  match p with
-  | XH -> B.one
-  | XO q -> B.shift_left (z_of_pos q) 1
-  | XI q -> B.succ (B.shift_left (z_of_pos q) 1)
-let z_of_n (x : n) : B.t = match x with N0 -> B.zero | Npos p -> z_of_pos p
-let z_of_zz (x : Model.z) : B.t = match x with Z0 -> B.zero | Zpos p -> z_of_pos p | Zneg p -> B.neg (z_of_pos p)
-let rec nat_of_int (i : int) : nat = if i <= 0 then O else S (nat_of_int (i - 1))
-let n_of_string s = n_of_z (B.of_string s)
-let n_of_int i = n_of_z (B.of_int i)
-let int_of_n x = B.to_int (z_of_n x)
-
-let split_ws s = List.filter (fun x -> x <> "") (String.split_on_char ' ' s)
-let split_on c s = String.split_on_char c s
-
-let bytes_of_hex (h : string) : n list =
-  let l = String.length h / 2 in
-  List.init l (fun i -> n_of_int (int_of_string ("0x" ^ String.sub h (2 * i) 2)))
-let hex_of_bytes (bs : n list) : string =
-  String.concat "" (List.map (fun b -> Printf.sprintf "%02x" (int_of_n b)) bs)
-
-let cmp_str = function Eq -> "Eq" | Lt -> "Lt" | Gt -> "Gt"
-
+(* topic driver: sort keys, ORDER BY / LIMIT checker (extract/sort_model.ml) *)
 (* ---- sort keys ----
    type syntax: u<w> | s<w> | f<w>:<shift> | b:<tkey>:<fkey> | str:<pw> | iv     (w in bytes)
    col syntax : <type>,<desc 0/1>,<nulls_first 0/1>
@@ -154,4 +119,4 @@ let () =
   | [_; "sortkey"] -> sortkey ()
   | [_; "sortcheck"] -> sortcheck ()
   | [_; "orderslice"] -> orderslice ()
-  | _ -> prerr_endline "usage: gmodel <sortkey|sortcheck>"; exit 2
+  | _ -> prerr_endline "usage: sort <sortkey|sortcheck|orderslice>"; exit 2
